@@ -311,6 +311,7 @@ def strat_report(tier):
         "asym": st.booleans(),
         "post": st.sampled_from([None, None, "set", "fix_after", "set_fixed", "set_fixed_refit"]),
         "minimizer": st.sampled_from(["iminuit", "iminuit", "scipy"]),
+        "noise_mult": st.sampled_from([1.0, 1.0, 1.0, 6.0, 15.0]),  # data that scatter much more than their uncertainties: chi2 of several hundred (more digits in front of the point)
     })
 
 
@@ -319,7 +320,7 @@ def build_fit(case):
 
     k = case["kind"]
     s = float(case["scale"])
-    nz = np.array(case["noise"])
+    nz = np.array(case["noise"]) * (float(case.get("noise_mult", 1.0)) if k in ("lin", "quad", "idx") else 1.0)  # only where the optimum stays unique
     rel = float(case["relerr"])
     if k in ("lin", "quad", "expo"):
         x = np.linspace(0.5, 6.0, 10)
@@ -386,6 +387,8 @@ def run_report(case):
         labels.add("constrained")
     with guard("do_fit"):
         fit.do_fit()
+    if fit.parameter_errors is not None and not np.all(np.isfinite(np.asarray(fit.parameter_errors, float))):
+        raise Discard("the minimiser did not produce finite uncertainties (C05-C07's subject): nothing to format")
     if case["post"] == "set":
         free = [nm for nm in names if nm not in fit._fitter.fixed_parameters]
         with guard("set_parameter_values"):
